@@ -1037,8 +1037,9 @@ func (p *PolicyManager) deletePodRuleByKeyword(pod *corev1.Pod, chain utiliptabl
 func (p *PolicyManager) getNamespaces(namespaceSelector *v1.LabelSelector) ([]*corev1.Namespace, error) {
 	namespaceLabelSelector, err := v1.LabelSelectorAsSelector(namespaceSelector)
 	if err != nil {
+		// namespaceLabelSelector is nil when the conversion fails
 		return nil, fmt.Errorf("failed to convert namespace labelSelector %s to selector: %v",
-			namespaceLabelSelector.String(), err)
+			namespaceSelector.String(), err)
 	}
 	namespaces, err := p.namespaceLister.List(namespaceLabelSelector)
 	if err != nil {
